@@ -4,7 +4,9 @@ import os
 import time
 
 import monitors as M
+import props_c10
 import props_c11
+import props_c13
 import props_c12
 import props_c18
 import vcheck
@@ -83,6 +85,13 @@ def S_engine(monitor, extra=(), name="engine", n=(150, 1500), seed_off=0):
             "sample": engine_sample}
 
 
+def S_prompt(pid):
+    return {"name": "prompt", "harness": lambda t, s: ["prompt", "-n", "7" if t == "quick" else "28", "-seed", str(s)],
+            "driver": None, "monitor": M.mon_prompt(pid), "nontrivial": lambda c: True,
+            "sample": lambda c: {"id": c.get("id"), "shape": c.get("shape"), "workflow_yaml": c.get("yaml", "")[-500:], "result": c.get("result"),
+                                 "wall_ms": c.get("wall_ms")}}
+
+
 def engine_sample(case):
     return {"id": case.get("id"), "workflow_yaml": case.get("yaml", "")[:1200], "behaviours": case.get("behaviours"),
             "input": case.get("input"), "result": case.get("result"), "log_len": len(case.get("log", []))}
@@ -99,7 +108,7 @@ PROPS = {
         "theorems": ["Arca.Props.C01.no_blocking_send", "Arca.Props.C01.at_most_one_output", "Arca.Props.C01.no_more_outputs_once",
                      "Arca.Props.C01.error_buffer_bounded", "Arca.Props.C01.error_capacity_sufficient", "Arca.Props.C01.dead_only_by_panic"],
         "pins": RUNLOOP_PINS,
-        "streams": [S_loop(mon_c01_loop), S_loop(mon_c01_loop, fanin=True), S_engine(M.mon_c01_engine)],
+        "streams": [S_loop(mon_c01_loop), S_loop(mon_c01_loop, fanin=True), S_engine(M.mon_c01_engine), S_prompt("C01")],
         "rule": LOOP_RULE + "; fan-in shape: one output fed by a failing step and 45 others; " + ENGINE_RULE,
     },
     "C02": {
@@ -162,7 +171,10 @@ PROPS = {
                 "steps and closure timeouts of 100-250 ms; non-trivial = the cancellation fired before the run ended",
     },
     "C07": {
-        "module": "Arca.Props.C07", "theorems": [],
+        "module": "Arca.Props.C07",
+        "theorems": ["Arca.Props.C07.legal_history_never_panics", "Arca.Props.C07.legal_callback_never_panics",
+                     "Arca.Props.C07.mark_unresolvable_succeeds", "Arca.Props.C07.propagation_fuel_suffices",
+                     "Arca.Props.C07.dead_only_by_panic"],
         "pins": RUNLOOP_PINS + RESOLVE_PINS,
         "streams": [S_loop(), S_engine(M.mon_c07_evalfail, extra=["-evalfail"], name="engine-evalfail", n=(250, 2500), seed_off=19)],
         "rule": LOOP_RULE + "; " + ENGINE_RULE + " with expressions that fail at run time (absent optional input, index out of range, "
@@ -185,6 +197,19 @@ PROPS = {
         "rule": "schedule sweeps on the instrumented build: every synchronisation point passed by a baseline run is held once for 60 ms "
                 "(quick: 45 sampled points per case); distinct = workflow text; non-trivial = at least one point swept",
     },
+    "C15": {
+        "module": "Arca.Props.C15",
+        "theorems": ["Arca.Props.C15.optional_meaning", "Arca.Props.C15.absent_members_left_out", "Arca.Props.C15.oneof_meaning",
+                     "Arca.Props.C15.recorded_source_was_produced", "Arca.Props.C15.wait_optional_settled_when_evaluated",
+                     "Arca.Props.C15.soft_optional_not_hard"],
+        "pins": RESOLVE_PINS + ["workflow_workflow_loopState_notifySteps", "workflow_executor_executor_prepareOptionalExprDependencies",
+                                "workflow_executor_executor_prepareOneOfExprDependencies", "workflow_executor_executor_createGroupNode",
+                                "workflow_yaml__buildOneOfExpressions", "workflow_yaml__buildResultOrDisabledExpression",
+                                "workflow_yaml__buildOptionalExpression", "workflow_yaml__yamlBuildExpressions"],
+        "streams": [S_loop(), S_engine(M.mon_c15_engine, n=(250, 2500), seed_off=31, extra=["-tags"])],
+        "rule": LOOP_RULE + " over workflows whose inputs and outputs use !wait-optional / !soft-optional / !oneof / !ordisabled; "
+                + ENGINE_RULE + " - every plugin input and the returned output are recomputed with the declarative meaning of the tags",
+    },
     "C08": {
         "module": "Arca.Props.C08", "theorems": [],
         "pins": RUNLOOP_PINS + ["workflow_workflow__serializedOutput"],
@@ -196,7 +221,10 @@ PROPS = {
 
 PROPS["C18"] = props_c18.SPEC
 PROPS["C11"] = props_c11.SPEC
-# PROPS["C12"] = props_c12.SPEC  # enabled when the slice is updated to the fixed providers
+PROPS["C12"] = props_c12.SPEC
+PROPS["C10"] = props_c10.SPEC_C10
+PROPS["C16"] = props_c10.SPEC_C16
+PROPS["C13"] = props_c13.SPEC
 
 
 def setup():
